@@ -443,8 +443,11 @@ func c08Wiring(p *Prog, r *Report) {
 			n, f, _, ok := fieldOf(st.Addr)
 			if ok && n != nil && n.Obj().Pkg() != nil && n.Obj().Pkg().Path() == "net/http/httputil" && n.Obj().Name() == "ReverseProxy" {
 				isRP = true
-				if mc, ok := stripConv(st.Val).(*ssa.MakeClosure); ok && (f == "Director" || f == "Rewrite") {
-					hooks[f] = mc.Fn.(*ssa.Function)
+				if f == "Director" || f == "Rewrite" {
+					// a closure literal, or the result of a module constructor returning one
+					if hf, _ := extractorImpl(p, st.Val); hf != nil {
+						hooks[f] = hf
+					}
 				}
 			}
 		}
